@@ -838,11 +838,6 @@ func main() {
 	maxN := r.QT(7, 10)
 	initEvents(r.Thorough())
 	depth := r.QT(3, 4)
-	r.Require("private-legacy/accept", "private-legacy/reject", "main-legacy/accept", "main-legacy/reject",
-		"main-boundary/accept", "main-boundary/reject", "main-new/accept", "main-new/reject",
-		"main-new/reject:legacy-would-accept", "handover/accept", "handover/reject", "handover/old-set-rejected-after-handover",
-		"handover/restart")
-
 	type job struct {
 		main bool
 		n    int
@@ -934,6 +929,12 @@ func main() {
 		"new-rule region reached by making len(headerIndex) answer > 20 000 000 through an in-package accessor (entry count of the map header set; thorough tier cross-checks one ledger against a genuinely inflated 20 000 001-entry index)",
 		"legacy rule taken to apply while the ledger's header tip (GetCurrentHeaderHeight) is <= 20 000 000 on main net, i.e. the header 20 000 001 itself is still verified under the legacy rule",
 		"validator-set sizes 1..3 are accepted by genesis construction (no minimum enforced)")
+	if r.NViolations() == 0 { // vacuity guard for a run that claims the property held
+		r.Require("private-legacy/accept", "private-legacy/reject", "main-legacy/accept", "main-legacy/reject",
+			"main-boundary/accept", "main-boundary/reject", "main-new/accept", "main-new/reject",
+			"main-new/reject:legacy-would-accept", "handover/accept", "handover/reject", "handover/old-set-rejected-after-handover",
+			"handover/restart")
+	}
 	if canonKO > 0 && r.NViolations() == 0 {
 		r.HarnessError("canonical fully-signed block/header rejected %d times (see evidence notes)", canonKO)
 	}
